@@ -82,8 +82,8 @@ Theorem C08_section_stack :
 Proof. exact (proj1 gen_section_stack). Qed.
 Print Assumptions C08_section_stack.
 
-(* textual inlining, for the tables: an unconditional #include of a file that holds only top-level sections (defaults, atom
-   types, type tables; defines, conditionals and nested includes allowed; no molecule type, no [ molecules ]; every content
+(* textual inlining, for files without molecule types: an unconditional #include of a file that holds only top-level sections
+   (defaults, atom types, type tables, [ system ] / [ molecules ] lists; defines, conditionals and nested includes allowed; every content
    line after a header of the file) is read exactly as if the lines of the file stood in place of the #include line --
    nested includes resolved relative to the included file -- followed by a check that its conditionals are closed; the only
    trace it leaves beyond that is the current-section register, which the next section header overwrites *)
